@@ -367,11 +367,10 @@ def volume_ssa(net, times, vdt, volume, t0=0.0, fire_cost=1, edge_cost=1, x0=Non
                 break
             continue
         t = proposed
-        rule_step = not fire
+        rule_step = False      # dt rules fire once per volume step: only a volume step sets rule_step
         while idx < N and times[idx] <= t:
             rows.append(net.row(x)); vols.append(V); idx += 1
         if not fire:
-            rule_step = True
             continue
         menu, which = rxn_menu(a, Lam, edge_cost)
         lr = yield menu
